@@ -11,6 +11,7 @@ import (
 	"bytes"
 	"crypto/rand"
 	"fmt"
+	mrand "math/rand"
 	"strings"
 
 	"github.com/mutagen-io/mutagen/pkg/identifier"
@@ -49,7 +50,7 @@ func c39Id(c *vlib.Ctx, dom string, key []int, prefix string, draw []byte) map[s
 	for i, v := range draw {
 		bs[i] = int(v)
 	}
-	rec := map[string]any{"ev": "Id", "in": map[string]any{"dom": dom, "key": ks, "bytes": bs, "prefix": plainChars(prefix)},
+	rec := map[string]any{"ev": "Id", "cid": "run", "in": map[string]any{"dom": dom, "key": ks, "bytes": bs, "prefix": plainChars(prefix)},
 		"err": ascii(errStr(err)), "id": plainChars(id), "idstr": ascii(id), "consumed": len(draw) - reader.Len(),
 		"valid": identifier.IsValid(id), "trunc": plainChars(identifier.Truncated(id))}
 	c.Eval()
@@ -65,7 +66,7 @@ func c39Name(c *vlib.Ctx, dom string, key []int, name string) map[string]any {
 		ks[i] = v
 	}
 	err := selection.EnsureNameValid(name)
-	rec := map[string]any{"ev": "Name", "in": map[string]any{"dom": dom, "key": ks, "name": plainChars(name), "s": ascii(name)},
+	rec := map[string]any{"ev": "Name", "cid": "run", "in": map[string]any{"dom": dom, "key": ks, "name": plainChars(name), "s": ascii(name)},
 		"ok": err == nil, "err": ascii(errStr(err)), "isId": identifier.IsValid(name)}
 	c.Eval()
 	if err == nil {
@@ -95,8 +96,14 @@ func c39GramName(vs []int) string {
 	return strings.Join(parts, "-")
 }
 
+// The whole run is one case: distinctness is a property of all identifiers of a
+// run, so a failing record can only be reproduced by repeating the run.
 func runC39(c *vlib.Ctx) error {
-	nrand := argInt(c, "rand", 2000)
+	return c39Run(c, c.Seed, argInt(c, "rand", 2000))
+}
+
+func c39Run(c *vlib.Ctx, seed int64, nrand int) error {
+	c.Emit(map[string]any{"ev": "Begin", "begin": true, "cid": "run", "in": map[string]any{"seed": int(seed), "rand": nrand}})
 	n := 0
 	seen := map[string]bool{} // draws already used (the trace module insists on distinct draws)
 	for k := 0; k <= 31; k++ {
@@ -176,7 +183,15 @@ func runC39(c *vlib.Ctx) error {
 		}
 	}
 	rec(0)
+	// a well-formed identifier used as a name (drawn from fixed bytes, so that the run is deterministic)
+	fixed := make([]byte, 32)
+	for i := range fixed {
+		fixed[i] = byte(7*i + 3)
+	}
+	saved := rand.Reader
+	rand.Reader = bytes.NewReader(fixed)
 	id, _ := identifier.New(identifier.PrefixSynchronization)
+	rand.Reader = saved
 	for _, s := range []string{"defaults", "default", "defaultss", "Defaults", "", "a", "a-b", "a1", "1a", "-a", "a_b", id,
 		"abcdef01-2345-6789-abcd-ef0123456789", "ABCDEF01-2345-6789-ABCD-EF0123456789", "abcdef0123456789abcdef0123456789",
 		"urn:uuid:abcdef01-2345-6789-abcd-ef0123456789", "{abcdef01-2345-6789-abcd-ef0123456789}", "sync", "my-session", "web2"} {
@@ -192,38 +207,16 @@ func runC39(c *vlib.Ctx) error {
 
 func replayC39(c *vlib.Ctx, begin map[string]any) error {
 	in, _ := begin["in"].(map[string]any)
-	if in == nil {
-		return fmt.Errorf("replay record has no input")
+	if in == nil || begin["ev"] != "Begin" {
+		return fmt.Errorf("replay needs the Begin record of the run")
 	}
-	dom, _ := in["dom"].(string)
-	var key []int
-	vlib.Decode(in["key"], &key)
-	join := func(v any) string {
-		var cs []string
-		vlib.Decode(v, &cs)
-		return strings.Join(cs, "")
+	var seed int64
+	var nrand int
+	vlib.Decode(in["seed"], &seed)
+	vlib.Decode(in["rand"], &nrand)
+	if nrand < 0 || nrand > 1000000 {
+		return fmt.Errorf("replay input out of range")
 	}
-	switch begin["ev"] {
-	case "Id":
-		var bs []int
-		vlib.Decode(in["bytes"], &bs)
-		draw := make([]byte, len(bs))
-		for i, v := range bs {
-			draw[i] = byte(v)
-		}
-		c.Emit(c39Id(c, dom, key, join(in["prefix"]), draw))
-	case "Name":
-		s, _ := in["s"].(string)
-		if dom != "raw" {
-			s = join(in["name"])
-		} else if strings.HasPrefix(s, "hex:") {
-			var b []byte
-			fmt.Sscanf(s[4:], "%x", &b)
-			s = string(b)
-		}
-		c.Emit(c39Name(c, dom, key, s))
-	default:
-		return fmt.Errorf("unknown record kind %v", begin["ev"])
-	}
-	return nil
+	c.Rand = mrand.New(mrand.NewSource(seed))
+	return c39Run(c, seed, nrand)
 }
